@@ -24,7 +24,7 @@ RULE = (
     "every round-trip model is compared in state and behaviour (C01 monitor) and for independence. "
     "non-trivial = program with a shared input, an unnamed node and >= 1 round trip; distinct by program hash"
 )
-REQUIRED = ["complete_and_unique", "outputs_inverse_of_inputs", "topological_order", "rejects_duplicates",
+REQUIRED = ["unchanged_after_failed_copy", "complete_and_unique", "outputs_inverse_of_inputs", "topological_order", "rejects_duplicates",
             "rejects_cycles", "mutation_rejected", "unchanged_after_rejection", "foreign_build_rejected",
             "coherent_after_rejection", "roundtrip_state_equal", "roundtrip_behaviour_equal", "roundtrip_independent"]
 ANCHORS = ["model/model.py:Model.__init__", "model/model.py:Model.pop_nodes_and_vars",
@@ -436,8 +436,73 @@ def run_case(case):
                   "seeded": has_seed, "kinds": sorted(set(kinds))}
     # ---- negative builds on fresh objects
     negative_builds(res, rng)
+    if case["idx"] % 4 == 0:
+        failed_copy_scenario(res, rng)
     _ = jnp
     return res
+
+
+def failed_copy_scenario(res, rng):
+    """A model holding a value that cannot be deep-copied/pickled (a lock): every copying operation must
+    fail *without* changing the model - in particular it must stay frozen and keep propagating assignments."""
+    import copy as _copy
+    import io as _io
+    import threading
+
+    import jax.numpy as jnp
+    import liesel.model as lsl
+
+    a = lsl.Var(jnp.asarray(1.0, jnp.float32), name="a")
+    handle = lsl.Value(threading.Lock(), _name="handle")
+    c = lsl.Calc(lambda x, h: x * 2.0, a, handle, _name="c")
+    d = lsl.Calc(lambda y: y + 1.0, c, _name="d")
+    M = lsl.GraphBuilder().add(d).build_model()
+    snap = snapshot_no_values(M)
+    attempts = {
+        "copy_nodes_and_vars": lambda: M.copy_nodes_and_vars(),
+        "deepcopy": lambda: _copy.deepcopy(M),
+        "save_model": lambda: lsl.save_model(M, _io.BytesIO()),
+        "_copy_computational_model": lambda: M._copy_computational_model(),
+    }
+    for label, fn in attempts.items():
+        try:
+            fn()
+            res.ev("uncopyable_value_copied_anyway")
+        except Exception:  # noqa: BLE001
+            pass
+        res.mon("unchanged_after_failed_copy")
+        dff = snap_diff(snap, snapshot_no_values(M))
+        if dff:
+            res.violation("changed-by-failed-copy", f"{label} failed on a model with an uncopyable value but changed the model: {dff}",
+                          {"attempt": label})
+            snap = snapshot_no_values(M)
+        # still frozen
+        for mlabel, mfn in (("Node.name=", lambda: setattr(c, "name", "renamed")), ("Node.set_inputs", lambda: c.set_inputs(a)),
+                            ("Calc.function=", lambda: setattr(c, "function", lambda *x: 0.0)), ("Var.name=", lambda: setattr(a, "name", "b"))):
+            try:
+                mfn()
+                res.violation("mutation-accepted", f"after a failed {label}: {mlabel} on an in-model object succeeded", {"attempt": label})
+                return
+            except Exception:  # noqa: BLE001
+                pass
+        # still propagating
+        a.value = jnp.asarray(float(rng.integers(2, 9)), jnp.float32)
+        if abs(float(d.value) - (2.0 * float(a.value) + 1.0)) > 1e-6 or d.outdated:
+            res.violation("incoherent-after-failed-copy", f"after a failed {label}: assignment no longer propagates (d={d.value})",
+                          {"attempt": label})
+            return
+        snap = snapshot_no_values(M)
+
+
+def snapshot_no_values(model):
+    sn = {}
+    for nm, n in model.nodes.items():
+        sn[nm] = {"id": id(n), "name": n.name, "inputs": [id(x) for x in n.inputs], "kwinputs": {k: id(x) for k, x in n.kwinputs.items()},
+                  "outputs": sorted(id(x) for x in n._outputs), "model": id(n.model) if n.model is not None else None,
+                  "fn": id(getattr(n, "_function", None)), "outdated": bool(n.outdated)}
+    sn["#nodes"] = sorted(model.nodes)
+    sn["#vars"] = sorted(model.vars)
+    return sn
 
 
 def negative_builds(res, rng):
